@@ -428,7 +428,27 @@ func wireEncode(e *Env, add func(string)) {
 						e.fail("C07-encode-error", kind+" encode error: "+err.Error(), short(h.Body))
 						continue
 					}
+					raw := out
 					out = append([]byte(nil), out...)
+					// the bytes handed back belong to the caller until it has consumed them: other users of
+					// the shared buffer pool, taking and filling buffers of the same size class meanwhile, do
+					// not change them
+					if !huge && len(raw) > 0 {
+						var junk [][]byte
+						for k := 0; k < 3; k++ {
+							b := rpc.GetBuffer(len(raw))
+							for j := range b {
+								b[j] = 0x5c
+							}
+							junk = append(junk, b)
+						}
+						for _, b := range junk {
+							rpc.PutBuffer(b)
+						}
+						if !bytes.Equal(raw, out) {
+							e.fail("C07-encoded-bytes-not-owned", fmt.Sprintf("%s with a scratch buffer of capacity %d: the %d bytes it returned were overwritten when other code took buffers from the shared pool", kind, c, len(raw)), short(h.Body))
+						}
+					}
 					// oracle 1: decode(encode x) = x on the implementation
 					var back hdr
 					var derr error
